@@ -18,7 +18,7 @@ sys.path.insert(0, os.path.dirname(os.path.abspath(__file__)))
 VERIF_ROOT = os.path.dirname(os.path.dirname(os.path.abspath(__file__)))
 from rustsrc import Source, Item, ExtractError, mask, match_close, loop_headers, split_args  # noqa: E402
 
-SECTION_KEYS = ('loopafter', 'desugar_any', 'props+', 'loopensures', 'enumerate_loop', 'ghost_begin', 'ghost_at', 'derive-', 'slow', 'loopproof', 'proof_begin', 'assumed_from', 'props', 'requires', 'ensures', 'decreases', 'invariant', 'loopdec', 'proof', 'returns', 'attr',
+SECTION_KEYS = ('desugar_position', 'loopafter', 'desugar_any', 'props+', 'loopensures', 'enumerate_loop', 'ghost_begin', 'ghost_at', 'derive-', 'slow', 'loopproof', 'proof_begin', 'assumed_from', 'props', 'requires', 'ensures', 'decreases', 'invariant', 'loopdec', 'proof', 'returns', 'attr',
                 'derive+', 'nested', 'specialize', 'novac', 'external_body', 'rename', 'recommends', 'loopiter',
                 'opens_invariants', 'no_unwind')
 
@@ -52,6 +52,7 @@ class Contract:
         self.assumed_from = None
         self.enumerate_loops = []   # R6: loop ordinals to desugar from `.iter().enumerate()`
         self.desugar_any = False    # R13: `E.iter().any(|x| C)` -> short-circuiting index loop
+        self.desugar_position = False  # R14: `E.iter().position(|x| C).unwrap_or_else(|| P)` -> index loop
         self.slow = False       # verified in the thorough tier only (assumed, external_body, in the quick tier)
         self.props = None       # property ids this item's semantic clauses serve (None: unit default)
         self.props_add = []     # further properties whose units use this contract as an assumption (`@include f props+ ..`)
@@ -236,8 +237,9 @@ class Unit:
             if cur is None:
                 continue
             in_proof = section is not None and section[0] in ('proof', 'proof_begin', 'loopproof', 'loopafter', 'ghost_begin', 'ghost_at')
-            if not line or ((line == '#' or line.startswith('# ')) and not in_proof):
-                if in_proof and buf is not None:
+            if not line or ((line == '#' or line.startswith('# ')) and (not in_proof or not raw.startswith(' '))):
+                # a `# ...` line in column 0 is a comment of the contract file even inside proof text
+                if in_proof and buf is not None and raw.startswith(' '):
                     buf.append(raw)
                 continue
             first = line.split()[0]
@@ -318,6 +320,9 @@ class Unit:
                     section = None
                 elif first == 'desugar_any':
                     c.desugar_any = True
+                    section = None
+                elif first == 'desugar_position':
+                    c.desugar_position = True
                     section = None
                 elif first == 'no_unwind':
                     c.no_unwind = True
@@ -534,7 +539,35 @@ class Emitter:
             self.rules.add('R13')
         return body
 
+    def desugar_position_calls(self, body, fnid):
+        """R14: `E.iter().position(|x| C).unwrap_or_else(|| P)` (P diverges)  ->
+        `{ let mut pos_index: usize = 0; let mut pos_found = false; while pos_index < E.len() && !pos_found { let x = &E[pos_index];
+           if C { pos_found = true; } else { pos_index += 1; } } if !pos_found { P; } pos_index }`"""
+        masked = mask(body)
+        m = re.search(r'([A-Za-z_][\w.\s]*?)\s*\.iter\(\)\s*\.position\(', masked)
+        if not m:
+            raise ExtractError('%s: desugar_position but no `.iter().position(` (anchor lost)' % fnid)
+        par = m.end() - 1
+        close = match_close(masked, par)
+        mc = re.match(r'\s*\|\s*(\w+)\s*\|\s*(.*)$', body[par + 1:close], re.S)
+        mu = re.match(r'\s*\.unwrap_or_else\(', masked[close + 1:])
+        if not mc or not mu:
+            raise ExtractError('%s: not of the form `.position(|x| C).unwrap_or_else(|| P)` (R14 not applicable)' % fnid)
+        upar = close + 1 + mu.end() - 1
+        uclose = match_close(masked, upar)
+        mp = re.match(r'\s*\|\|\s*(.*)$', body[upar + 1:uclose], re.S)
+        if not mp:
+            raise ExtractError('%s: unwrap_or_else without `|| P` (R14 not applicable)' % fnid)
+        e = ''.join(m.group(1).split())
+        x, c, pexp = mc.group(1), mc.group(2).strip(), mp.group(1).strip()
+        new = ('{ let mut pos_index: usize = 0; let mut pos_found = false;\n            while pos_index < %s.len() && !pos_found {\n                let %s = &%s[pos_index];\n'
+               '                if %s { pos_found = true; } else { pos_index += 1; }\n            }\n            if !pos_found { %s; }\n            pos_index }' % (e, x, e, c, pexp))
+        self.rules.add('R14')
+        return body[:m.start(1)] + new + body[uclose + 1:]
+
     def render_body(self, body, contract, fnid):
+        if contract.desugar_position:
+            body = self.desugar_position_calls(body, fnid)
         if contract.desugar_any:
             body = self.desugar_any_calls(body, fnid)
         for k in contract.enumerate_loops:
